@@ -194,12 +194,22 @@ def misuse_and_wait_rules(rep, fns):
     lk = fns["pika::mutex::lock"]
     tlu = fns["pika::timed_mutex::try_lock_until"]
 
-    def self_var(fn):
-        vs = [ev["var"] for _, _, ev in fn.all_events() if ev.get("k") == "decl" and ev.get("init") is not None
-              and strip(ev["init"]).get("k") == "call" and callee_short(strip(ev["init"])) == "get_self_id"]
-        if len(vs) != 1:
+    def self_vars(fn):
+        """locals holding the caller's id: initialised from get_self_id(), or copies / references of such a local"""
+        vs = set()
+        changed = True
+        while changed:
+            changed = False
+            for _, _, ev in fn.all_events():
+                if ev.get("k") != "decl" or ev.get("init") is None or ev["var"] in vs:
+                    continue
+                i0 = strip(ev["init"])
+                if (i0.get("k") == "call" and callee_short(i0) == "get_self_id") or (i0.get("k") == "var" and i0.get("name") in vs):
+                    vs.add(ev["var"])
+                    changed = True
+        if not vs:
             raise AnalysisBroken("%s: the local holding get_self_id() not found" % fn.qname)
-        return vs[0]
+        return vs
 
     def is_wait(ev):
         return ev.get("k") == "call" and ev.get("recv") is not None and P(ev["recv"]) == "this->cond_" and \
@@ -207,8 +217,11 @@ def misuse_and_wait_rules(rep, fns):
 
     # --- lock(): refusal <=> owner == self.  "owner == self" cannot change while the caller is inside lock() (only the
     # caller itself ever writes its own id), so the fact is not killed by the wait's release of mtx_.
-    sv = self_var(lk)
-    own_atom = "%s == %s" % tuple(sorted([sv, OWNER]))
+    svs = self_vars(lk)
+    own_atoms = set("%s == %s" % tuple(sorted([sv, OWNER])) for sv in svs)
+
+    def own(fb, truth):
+        return any((a, truth) in fb for a in own_atoms)
     ff = FactFlow(lk)
     writes = set((b, i) for b, i, ev, rhs in owner_writes(lk) if rhs != INVALID)
     n = 0
@@ -219,14 +232,14 @@ def misuse_and_wait_rules(rep, fns):
         refusal = ev.get("k") == "call" and callee_short(ev) in ("throws_if", "throw_exception") or ev.get("k") == "throw"
         if refusal:
             n += 1
-            if (own_atom, True) in fb:
+            if own(fb, True):
                 rep.ok("C06.R8", lk, "the deadlock refusal at %s is raised only when owner_id_ == caller" % loc_of(ev))
             else:
                 rep.bad("C06.R8", lk, loc_of(ev), "refusal-not-owner", "lock() reports an error on a path where the caller was not "
                         "established to be the owner (facts: %s): ordinary lockers are refused / a re-lock is not detected" % sorted(fb))
         if is_wait(ev) or (b, i) in writes:
             n += 1
-            if (own_atom, False) in fb:
+            if own(fb, False):
                 rep.ok("C06.R8", lk, "%s at %s only after owner_id_ != caller was established" % ("wait" if is_wait(ev) else "acquisition", loc_of(ev)))
             else:
                 rep.bad("C06.R8", lk, loc_of(ev), "relock-not-refused:" + ("wait" if is_wait(ev) else "acquire"),
@@ -244,7 +257,7 @@ def misuse_and_wait_rules(rep, fns):
     for b, i, ev, fb, mw in exits:
         if fb is None or "w" in (mw or ()):
             continue
-        if (own_atom, True) in fb or any(t and a.split(".")[0] in ("ec",) or (t and re.match(r"^\w+$", a) and a != sv and "owner" not in a) for a, t in fb):
+        if own(fb, True) or any(t and a.split(".")[0] in ("ec",) or (t and re.match(r"^\w+$", a) and a not in svs and "owner" not in a) for a, t in fb):
             rep.ok("C06.R8", lk, "lock() returns without the mutex at %s only after a refusal or an error of the wait" % loc_of(ev))
         else:
             rep.bad("C06.R8", lk, loc_of(ev), "return-without-lock", "lock() returns normally without owning the mutex and without an error "
